@@ -97,9 +97,27 @@ def lean_files():
     return sorted(res)
 
 
-def forbidden_tokens():
+def module_path(mod):
+    return os.path.join(LEAN, mod.replace(".", "/") + ".lean")
+
+
+def import_closure(roots):
+    """Lean files (within /verif/lean) transitively imported by the given modules."""
+    seen, todo = [], list(roots)
+    while todo:
+        m = todo.pop()
+        path = module_path(m)
+        if path in seen or not os.path.exists(path):
+            continue
+        seen.append(path)
+        for im in re.findall(r"^import\s+((?:ScyllaVerif|Driver)\.\S+)", strip_lean_comments(open(path).read()), re.M):
+            todo.append(im)
+    return sorted(seen)
+
+
+def forbidden_tokens(roots=None):
     hits = []
-    for f in lean_files():
+    for f in (import_closure(roots) if roots else lean_files()):
         src = strip_lean_comments(open(f).read())
         for m in FORBIDDEN.finditer(src):
             line = src.count("\n", 0, m.start()) + 1
@@ -395,7 +413,7 @@ def check_property(pid, tier, seed, replay=None):
                 broken.append("axiom audit: %s depends on %s" % (name, ax))
             else:
                 discharged += 1
-    hits = forbidden_tokens()
+    hits = forbidden_tokens(modules + ["Driver." + pid])
     if hits:
         broken.append("forbidden tokens in Lean sources: " + "; ".join(hits[:10]))
         discharged = 0
